@@ -103,6 +103,8 @@ class Check:
         self.args = ap.parse_args()
         self.tier = self.args.tier
         os.environ["VERIF_TIER"] = self.tier
+        if self.tier == "thorough":
+            os.environ.setdefault("VERIF_CROSSCHECK_EVERY", "40")      # two solvers: every 40th decided query also goes to cvc5
         os.environ["VERIF_SEED"] = str(self.args.seed)
         self.seed = self.args.seed
         self.t0 = time.time()
@@ -221,6 +223,8 @@ class Check:
             problems.append("%d harness errors, e.g. %s" % (len(self.harness_errors), self.harness_errors[0].get("detail")))
         if n_total and n_inc / max(1, n_total) > self.max_inconclusive_share:
             problems.append("inconclusive share %d/%d exceeds budget" % (n_inc, n_total))
+        if self.stats.get("xcheck_disagree", 0):
+            problems.append("two-solver cross-check: cvc5 disagrees with z3 on %d queries" % self.stats["xcheck_disagree"])
         if decided < self.floor:
             problems.append("coverage floor: only %d decided instances (< %d)" % (decided, self.floor))
         twins = [o.get("twin") for o in self.outcomes if o.get("twin") is not None]
